@@ -20,7 +20,7 @@ LEVEL_TEXT = ('For every golden source and 8 generated programs, every configura
               'assembler; the code file must be byte-identical to the default run and the exit status equal; repeated runs must reproduce listing, '
               'MAP and share files byte for byte apart from the date/time stamp.'
               ' One generated program executes 250 sequential INCLUDEs per pass.'
-              ' Include directories added and removed again (+i), the list form of -i and a key file line longer than 255 characters are deviations of their own.')
+              ' Include directories added and removed again (+i), the list form of -i and a key file line longer than 255 characters are deviations of their own. The source named with ./, without its suffix and through a directory with a dot in its name are deviations too: the code file is expected next to the source under the source\'s name.')
 LEVEL_NOTE = ('Trusted: the default-configuration run of the same binary as reference. -h/-SPLITBYTE only for sources without "\\{". '
               'Known finding listed in known_findings.txt for -SPLITBYTE with user FUNCTIONs if present.')
 RULE = 'configurations = subsets of size <=k of the deviation list; non-trivial = at least one deviation'
